@@ -153,6 +153,335 @@ def no_value_element_lines(m):
     return found
 
 
+
+# -- the two text formats against the Coq model (TextFmt.v) ---------------------------------------
+def ds(s):
+    """a string as decimal code points joined by '.', '-' for the empty string"""
+    return '.'.join(str(ord(c)) for c in s) if s else '-'
+
+
+def dsl(l):
+    return ','.join(ds(x) for x in l) if l else '_'
+
+
+def unds(t):
+    return '' if t == '-' else ''.join(chr(int(x)) for x in t.split('.'))
+
+
+def sections_of(m):
+    """sections as the driver reads them, the repr texts of the parameter values, the values"""
+    from pybufrkit.constants import PARAMETER_TYPE_TEMPLATE_DATA
+    secs, preprs, pvals, shape = [], [], [], []
+    for section in m.sections:
+        ps, sh = [], []
+        for p in section:
+            if p.type == PARAMETER_TYPE_TEMPLATE_DATA:
+                ps.append('T')
+                sh.append(None)
+            else:
+                ps.append('%s=%d' % (ds(p.name), len(preprs)))
+                sh.append(len(preprs))
+                preprs.append(repr(p.value))
+                pvals.append(p.value)
+        secs.append('%d:%s' % (section.get_metadata('index'), ';'.join(ps)))
+        shape.append(sh)
+    return ('/'.join(secs) or '_'), preprs, pvals, shape
+
+
+def flat_cmd(m, secs, preprs):
+    from pybufrkit.renderer import FlatTextRenderer
+    R = FlatTextRenderer()
+    td = m.template_data.value
+    subs, objs = [], []
+    for i in range(td.n_subsets):
+        descs, vs, links = (td.decoded_descriptors_all_subsets[i], td.decoded_values_all_subsets[i],
+                            td.bitmap_links_all_subsets[i])
+        cells = []
+        for d, v in zip(descs, vs):
+            flag = hasattr(d, 'unit') and d.unit == 'FLAG TABLE'
+            if flag and v is not None:
+                bits = [(k + 1) for k, bit in enumerate('{:0{}b}'.format(v, d.nbits)) if bit == '1']
+                obj, kind = (v, bits), 'f' + '_'.join(map(str, bits))
+            else:
+                obj, kind = v, (('g' if flag else 'z') if v is None else 'p')
+            cells.append('%s~%s~%s' % (ds(R._render_descriptor(d)), ds(repr(obj)), kind))
+            objs.append((obj, v))
+        subs.append('%s|%s' % (','.join('%d>%d' % kv for kv in sorted(links.items())) or '-', ';'.join(cells) or '_'))
+    cmd = 'c09flat %s %s %s %d %s' % (ds(str(m.table_group_key)), secs, dsl(preprs), len(subs), ' '.join(subs))
+    return cmd, objs
+
+
+def nested_cmd(m, secs, preprs, toks, fuel=6):
+    """None when repr is not a function of the model value in this message (0.0 / -0.0)"""
+    from pybufrkit.templatedata import NoValueDataNode, DelayedReplicationNode
+    from pybufrkit.descriptors import MarkerDescriptor
+    td = m.template_data.value
+    nv, subs, seen = {}, [], {}
+    for i in range(td.n_subsets):
+        descs, vs, links = (td.decoded_descriptors_all_subsets[i], td.decoded_values_all_subsets[i],
+                            td.bitmap_links_all_subsets[i])
+        cls = {}
+
+        def val(n):
+            if n.index in cls:
+                return
+            cls[n.index] = n.__class__.__name__[:-4]
+            for a in getattr(n, 'attributes', []):
+                val(a)
+
+        def walk(ns):
+            for n in ns:
+                if isinstance(n, NoValueDataNode):
+                    nv[n.descriptor.id] = str(n)
+                    if isinstance(n, DelayedReplicationNode):
+                        val(n.factor)
+                    if hasattr(n, 'members'):
+                        walk(n.members)
+                else:
+                    val(n)
+        walk(td.decoded_nodes_all_subsets[i])
+        descr = []
+        for k, d in enumerate(descs):
+            if isinstance(d, MarkerDescriptor):
+                descr.append('{:06d}'.format(d.marker_id))
+            elif hasattr(d, 'name'):
+                descr.append(d.name)
+            else:
+                descr.append(cls.get(k, 'ValueData'))
+        mvals = [B.python_value_to_model(v) for v in vs]
+        for mv, v in zip(mvals, vs):
+            if seen.setdefault(mv, repr(v)) != repr(v):
+                return None
+        subs.append('%s|%s|%s|%s|%s' % (','.join(map(str, descs)) or '-', ','.join(mvals) or '-',
+                                         ','.join('%d>%d' % kv for kv in sorted(links.items())) or '-',
+                                         dsl(descr), dsl([repr(v) for v in vs])))
+    nvs = ','.join('%d=%s' % (k, ds(v)) for k, v in sorted(nv.items())) or '_'
+    return 'c09nested %d %s %s %s %s %d %s %s' % (fuel, ds(str(m.table_group_key)), secs, dsl(preprs), nvs,
+                                                   len(subs), ' '.join(subs), toks)
+
+
+def literal_ok(x, strip=False):
+    import ast
+    try:
+        t = repr(x)
+        y = ast.literal_eval(t.strip() if strip else t)
+        return type(y) is type(x) and (y == x or (y != y and x != x))
+    except Exception:
+        return False
+
+
+def parse_tie(ctx, case, tag, kind, text, shape, pvals, values, tuples, converter):
+    """the model parser (extracted flat/nested_text_to_flat_json) on the REAL text against the real converter;
+    literal_eval is the table of the repr texts of this message's objects"""
+    texts, first = [], {}
+
+    def tok(t, entry=None):
+        if t not in first:
+            first[t] = len(texts)
+            texts.append(entry if entry is not None else ds(t))
+        return first[t]
+    for x in pvals:
+        tok(repr(x))
+    for v in values:
+        tok(repr(v))
+    for obj, v in tuples:
+        if isinstance(obj, tuple) and repr(obj) not in first:
+            tok(repr(obj), '%s^%d' % (ds(repr(obj)), first[repr(v)]))
+    if len(text) > 400000:
+        ctx.dist['%s-text-too-long-for-model-parser' % kind] += 1
+        return
+    import ast
+    for _ in range(6):
+        mo = lib.run_model(['c09parse %s %s %s' % (kind, ','.join(texts) or '_', ds(text))])[0]
+        if not mo.startswith('need '):
+            break
+        # texts the model parser hands to literal_eval that are not a repr of this message: ask the real literal_eval
+        ctx.dist['%s-parser-tie: literal_eval asked about a text that is no repr of the message' % kind] += 1
+        for t in mo[5:].split(','):
+            raw = unds(t)
+            try:
+                x = ast.literal_eval(raw)
+                if isinstance(x, tuple):
+                    tok(raw, '%s^%d' % (t, tok(repr(x[0]))))
+                else:
+                    k = tok(repr(x))
+                    if raw not in first:
+                        first[raw] = k
+                        texts.append('%s=%d' % (t, k))
+            except Exception:
+                first[raw] = -1
+                texts.append(t + '!')
+    try:
+        with lib.time_limit(120):
+            back = converter(text)
+
+        def t1(x):
+            return str(first.get(repr(x), '?'))
+        secs = []
+        for si, sec in enumerate(back):
+            items = []
+            for pi, it in enumerate(sec):
+                is_td = (si < len(shape) and pi < len(shape[si]) and shape[si][pi] is None and len(sec) == len(shape[si]))
+                if is_td:
+                    items.append('[' + '|'.join(','.join(t1(x) for x in sub) for sub in it) + ']')
+                else:
+                    items.append(t1(it))
+            secs.append(';'.join(items) or '_')
+        io = 'ok ' + ('/'.join(secs) or '_')
+    except Exception as e:
+        io = 'err %d' % lib.err_code(e)
+    ctx.dist['%s-parser-tie' % kind] += 1
+    if io != mo and not (io.startswith('err') and mo.startswith('err')):
+        ctx.violation({'kind': 'C09-text-parser-mismatch', 'format': kind, 'case': case, 'impl': io[:300], 'model': mo[:300]},
+                      '%s: model %s-text parser differs from utils (%s / %s)' % (tag, kind, io[:80], mo[:80]))
+
+
+def text_tie(ctx, case, toks, m, tag, agree):
+    """model renderers byte for byte against the real ones; model parsers on the real text; the side
+    conditions of the Coq theorems evaluated on this message: when they all hold the real round trip must succeed"""
+    from pybufrkit.renderer import FlatTextRenderer, NestedTextRenderer
+    from pybufrkit.utils import flat_text_to_flat_json, nested_text_to_flat_json
+    td = m.template_data.value
+    secs, preprs, pvals, shape = sections_of(m)
+    values = [v for vs in td.decoded_values_all_subsets for v in vs]
+    fcmd, objs = flat_cmd(m, secs, preprs)
+    ncmd = nested_cmd(m, secs, preprs, toks)
+    cmds = [fcmd] + ([ncmd] if ncmd else [])
+    outs = lib.run_model(cmds)
+    real = {'flat': FlatTextRenderer().render(m), 'nested': NestedTextRenderer().render(m)}
+    ext_ok = all(literal_ok(x) for x in pvals) and all(literal_ok(v) for v in values)
+    ext_flat = all(literal_ok(x) for x in pvals) and all(literal_ok(o, strip=True) for o, _ in objs)
+    for kind, out in zip(['flat', 'nested'], outs):
+        ctx.dist['%s-text-render-tie' % kind] += 1
+        if not out.startswith('ok '):
+            if out == 'repr-conflict' or out.startswith('wire-'):
+                ctx.dist['%s-text-%s' % (kind, out.split(' ')[0])] += 1
+                continue
+            ctx.violation({'kind': 'C09-text-driver', 'format': kind, 'case': case, 'model': out[:200]},
+                          '%s: %s text driver: %s' % (tag, kind, out[:100]))
+            continue
+        _, mtext, hyps = out.split(' ')
+        mtext = unds(mtext)
+        if mtext != real[kind]:
+            a, b = mtext.split('\n'), real[kind].split('\n')
+            k = next((i for i in range(min(len(a), len(b))) if a[i] != b[i]), min(len(a), len(b)))
+            ctx.violation({'kind': 'C09-text-render-mismatch', 'format': kind, 'case': case, 'line': k,
+                           'model': (a[k] if k < len(a) else None), 'impl': (b[k] if k < len(b) else None)},
+                          '%s: %s text differs at line %d: model %r impl %r' % (
+                              tag, kind, k, (a[k] if k < len(a) else None), (b[k] if k < len(b) else None)))
+        hyp = dict(kv.split('=') for kv in hyps.split(','))
+        failing = sorted(k for k, v in hyp.items() if v != '1')
+        ext = ext_flat if kind == 'flat' else ext_ok
+        if not ext:
+            failing.append('literal_eval(repr)')
+        if failing:
+            ctx.dist['%s-text side condition fails: %s' % (kind, '+'.join(failing))] += 1
+        else:
+            ctx.dist['%s-text side conditions hold' % kind] += 1
+            if agree.get(kind + '-text') is not True:
+                ctx.violation({'kind': 'C09-text-theorem-contradicted', 'format': kind, 'case': case,
+                               'result': agree.get(kind + '-text')},
+                              '%s: the side conditions of %s_text_roundtrip hold but the implementation does not convert back' % (tag, kind))
+    if ncmd is None:
+        ctx.dist['nested-text-skipped: repr not a function of the model value'] += 1
+    parse_tie(ctx, case, tag, 'flat', real['flat'], shape, pvals, values, objs, flat_text_to_flat_json)
+    parse_tie(ctx, case, tag, 'nested', real['nested'], shape, pvals, values, [], nested_text_to_flat_json)
+
+
+HOSTILE = [b" b'x", b'it\'s "q"', b"  lead", b"a = b", b"# x", b"-> A1", b"<<<<<<", b"######", b"3xx y", b"\\", b" b\"",
+           b"' b'", b"x b' y'", b"\xff\x85 z", b". dots", b"tab\there", b"nl\nx", b"q'", b'q"', b"....", b" = "]
+
+
+def hostile_message(k):
+    """strings that look like what the parsers search for: quotes, ' b' + quote, ' = ', '#', '->', '<<<<<<', dots;
+    under an associated field, in a delayed replication, and as the last value"""
+    a, b2, c = HOSTILE[k % len(HOSTILE)], HOSTILE[(k * 7 + 3) % len(HOSTILE)], HOSTILE[(k * 5 + 1) % len(HOSTILE)]
+    shape = k % 3
+    if shape == 0:
+        ids, vals = [1015, 12001, 1019], [[a, 280.5, b2], [c, None, a]]
+    elif shape == 1:
+        ids, vals = [204004, 31021, 1015, 204000, 101000, 31001, 1019, 1015], [[1, 5, a, 2, b2, c, a]]
+    else:
+        ids, vals = [1015, 222000, 236000, 101001, 31031, 33007, 1019], [[a, 0, 0, 0, 70, b2]]
+    return ids, vals
+
+
+HOSTILE_NAMES = ["A = B", "x b' y", "#hash", "-> A12001 fake", "3", "<<<<<< section 9 >>>>>>", "###### subset 1 of 1 ######",
+                 "Z" * 100, "tab\there", "ends with quote '", 'ends "', "trailing  ", "  leading", "....dots", "1 2 3", "", "b'"]
+
+
+class hostile_names(object):
+    def __init__(self, m, k):
+        seen = {}
+        for descs in m.template_data.value.decoded_descriptors_all_subsets:
+            for d in descs:
+                if hasattr(d, 'name') and type(d).__name__ == 'ElementDescriptor':
+                    seen[id(d)] = d
+        self.ds = list(seen.values())
+        self.k = k
+
+    def __enter__(self):
+        self.old = [d.name for d in self.ds]
+        for j, d in enumerate(self.ds):
+            d.name = HOSTILE_NAMES[(self.k * 3 + j) % len(HOSTILE_NAMES)]
+
+    def __exit__(self, *a):
+        for d, n in zip(self.ds, self.old):
+            d.name = n
+
+
+def text_hostile_strings(ctx):
+    from pybufrkit.decoder import Decoder
+    for k in range(ctx.n(21, 63)):
+        ids, vals = hostile_message(k)
+        try:
+            b = B.encode_message(ids, vals, False, 4, 33).serialized_bytes
+            m = Decoder().process(b, wire_template_data=False)
+            toks = B.template_tokens(m.template_data.value.template)
+        except Exception as e:
+            ctx.dist['hostile-strings-not-built-%d' % lib.err_code(e)] += 1
+            continue
+        ctx.count(('hostile', k), True)
+        ctx.dist['hostile-strings'] += 1
+        check_message(ctx, {'hostile': k, 'ids': ids}, toks, b, 'hostile-%d' % k)
+        # the same message with hostile element NAMES (the Table B objects are shared: renamed and restored)
+        with hostile_names(m, k):
+            ctx.count(('hostile-names', k), True)
+            ctx.dist['hostile-names'] += 1
+            check_message(ctx, {'hostile': k, 'ids': ids, 'names': True}, toks, b, 'hostile-names-%d' % k)
+
+
+def zero_subsets_probe(ctx):
+    """a message with no subset: both text renderers emit one empty line for the template data and the converters
+    raise ValueError (the model: flat_td_ok / nested_td_ok require a subset).  Recorded, not counted as a violation
+    here: see notes/c09text.md for the proposed known-finding entry."""
+    from pybufrkit.decoder import Decoder
+    from pybufrkit.renderer import FlatTextRenderer, NestedTextRenderer
+    from pybufrkit.utils import flat_text_to_flat_json, nested_text_to_flat_json
+    out = {}
+    try:
+        b = B.encode_message([1001], [], False, 4, 33).serialized_bytes
+        m = Decoder().process(b)
+        for nm, R, P in (('flat', FlatTextRenderer, flat_text_to_flat_json), ('nested', NestedTextRenderer, nested_text_to_flat_json)):
+            t = R().render(m)
+            try:
+                P(t)
+                out[nm] = 'converts'
+            except Exception as e:
+                out[nm] = 'err %d' % lib.err_code(e)
+            secs, preprs, pvals, shape = sections_of(m)
+            if nm == 'flat':
+                cmd, _ = flat_cmd(m, secs, preprs)
+            else:
+                cmd = nested_cmd(m, secs, preprs, B.template_tokens(m.template_data.value.template))
+            mo = lib.run_model([cmd])[0].split(' ')
+            out[nm + '-model-text-equal'] = (mo[0] == 'ok' and unds(mo[1]) == t)
+            out[nm + '-model-hyps'] = mo[2] if len(mo) > 2 else None
+    except Exception as e:
+        out['error'] = repr(e)[:200]
+    ctx.extra['zero-subsets'] = out
+
+
 def model_wire_lines(toks, flat):
     lines = []
     for labels, vals, links in flat:
@@ -163,7 +492,7 @@ def model_wire_lines(toks, flat):
     return lines
 
 
-def check_message(ctx, case, toks, b, tag, converters=True):
+def check_message(ctx, case, toks, b, tag, converters=True, text_model=True):
     try:
         with lib.time_limit(120):
             m, flat, res = impl_views(b)
@@ -211,6 +540,11 @@ def check_message(ctx, case, toks, b, tag, converters=True):
                 if fmt == 'nested-text' and cause:
                     rec['cause'] = cause
                 ctx.violation(rec, '%s: %s does not convert back to the flat JSON (%r)' % (tag, fmt, ok))
+        if text_model:
+            try:
+                text_tie(ctx, case, toks, m, tag, agree)
+            except RuntimeError as e:
+                ctx.violation({'kind': 'C09-text-driver', 'case': case, 'error': str(e)[:200]}, '%s: text driver failed' % tag)
     elif res[0] != 'ok':
         ctx.dist['wire-error-%d' % res[1]] += 1
 
@@ -352,16 +686,33 @@ def run(ctx):
                 ctx.dist['corpus-wire-error-%d' % lib.err_code(e)] += 1
             continue
         check_message(ctx, {'file': os.path.basename(f)}, toks, b, os.path.basename(f))
+    text_hostile_strings(ctx)
+    zero_subsets_probe(ctx)
     cli_four_formats(ctx)
-    ctx.partial = ["flat text / nested text converters: line formats are exercised on the implementation, not modelled in Coq",
+    ctx.partial = ["C09_nested_text_221_refuted (D21): NestedTextRenderer prints elements skipped by 221YYY without a value",
+                   "C09_text_zero_subsets_refuted: a message without any subset does not convert back from either text format",
+                   "repr / ast.literal_eval are external to the text theorems: their side conditions (TextFmtSpec.v) are evaluated per "
+                   "message by the extracted code and by the harness (literal_eval(repr(v)) == v)",
                    'labels_agree (an attribute is non-virtual exactly when its descriptor is an associated field) is a checked hypothesis of nested_to_flat_render']
-    ctx.assumptions = ['repr / ast.literal_eval / str.format are exercised, not modelled']
+    ctx.assumptions = ['repr / ast.literal_eval are parameters of the text theorems (side conditions checked per message); str.format widths, strip, splitlines, split, rfind, rsplit are modelled']
 
 
 def replay(ctx, rec):
     c = rec['case']
     if 'file' in c:
         return {'file': c['file']}
+    if 'hostile' in c:
+        from pybufrkit.decoder import Decoder
+        ids, vals = hostile_message(c['hostile'])
+        b = B.encode_message(ids, vals, False, 4, 33).serialized_bytes
+        m = Decoder().process(b, wire_template_data=False)
+        toks = B.template_tokens(m.template_data.value.template)
+        if c.get('names'):
+            with hostile_names(m, c['hostile']):
+                check_message(ctx, c, toks, b, 'replay')
+        else:
+            check_message(ctx, c, toks, b, 'replay')
+        return {'violations': len(ctx.violations)}
     cases = [{'ids': c['ids'], 'version': c.get('version', 33), 'edition': c.get('edition', 4), 'nsub': c['nsub'],
               'compressed': False, 'forced': c['forced'], 'seed': c['seed'], 'maxrep': 3, 'features': {}, 'shared': False}]
     P.attach_templates(cases); P.run_gen(cases); P.run_encode(cases)
